@@ -57,13 +57,23 @@ def fold(e):
     if op in ("/", "div"):
         return a / b
     if op == "mod":
-        return a % b
+        # Help:Extension:ParserFunctions: "remainder of division after truncating both operands to an integer"; the result has
+        # the sign of the dividend (-8 mod 3 = -2, 8 mod 2.7 = 0, 8.9 mod 3 = 2)
+        ta, tb = math.trunc(a), math.trunc(b)
+        if tb == 0:
+            raise ZeroDivisionError("mod by a value that truncates to zero")
+        return int(math.fmod(ta, tb))
     if op == "+":
         return a + b
     if op == "-":
         return a - b
     if op == "round":
-        return round(a, b)
+        # "rounds off the number on the left to a multiple of 1/10 raised to a power, with the exponent equal to the truncated
+        # value of the number given on the right"; halves go away from zero (2.5 round 0 = 3, -2.5 round 0 = -3, 1250 round -2 = 1300)
+        import decimal
+        d = math.trunc(b)
+        q = decimal.Decimal(repr(a)).quantize(decimal.Decimal(1).scaleb(-d), rounding=decimal.ROUND_HALF_UP)
+        return int(q) if d <= 0 or isinstance(a, int) else float(q)
     if op == "=":
         return int(a == b)
     if op in ("!=", "<>"):
